@@ -184,6 +184,7 @@ native {
    eqrel_ternary_protocol_k3_le5 => |s, r| { eqrel::protocol3::<5, 3>(s, r) },
    trrel_ternary_protocol_k3_le4 => |s, r| { trrel_prov::protocol3::<4, 3>(s, r) },
    trrel_ternary_protocol_k3_le5 => |s, r| { trrel_prov::protocol3::<5, 3>(s, r) },
+   binrel_sweep => |s, r| { trrel_prov::binrel_sweep(s, r) },
    trrel_protocol_le4 => |s, r| { trrel_prov::protocol2::<4>(s, r) },
    trrel_protocol_le5 => |s, r| { trrel_prov::protocol2::<5>(s, r) },
    trrel_ternary_protocol_le3 => |s, r| { trrel_prov::protocol3::<3, 2>(s, r) },
